@@ -5,7 +5,7 @@
 (* config/coordinator.go).                                                 *)
 (*                                                                         *)
 (* An abstract configuration is a record                                   *)
-(*   [recv, mti, ti, routes]                                               *)
+(*   [recv, mti, ti, routes, ibody, sec]                                   *)
 (* recv   : the names of the `receivers:` list, in order (duplicates and   *)
 (*          the empty name are possible values);                           *)
 (* mti/ti : the names of `mute_time_intervals:` (deprecated section) and   *)
@@ -13,6 +13,14 @@
 (* routes : the routing tree, flattened in pre-order: routes[1] is the     *)
 (*          root, routes[i].p < i is the index of the parent of node i     *)
 (*          (0 for the root); siblings are ordered by index.               *)
+(* ibody  : the bodies of named time intervals, a sequence of              *)
+(*          [name, elems]; elems = the `time_intervals:` list of that      *)
+(*          name, every element a record of TOKENS (what the text says):   *)
+(*          [times, weekdays, dom, months, years, loc] (see "Time interval *)
+(*          bodies" below).  A defined name without an entry has a body    *)
+(*          the conformance harness fixes.                                 *)
+(* sec    : the secret-bearing fields the document sets, a sequence of     *)
+(*          [site, type, shape] (see "Secrets" below).                     *)
 (* A route node is                                                         *)
 (*   [p, recv, gbset, gb, gi, ri, m, cont, mute, active]                   *)
 (* recv "" = no `receiver:` key; gbset = the `group_by:` key is present,   *)
@@ -32,7 +40,7 @@
 (* Below this abstraction (not modelled, exercised by the structural       *)
 (* corruptions of harness/c17 TestRobust): the YAML encoding itself - null *)
 (* list elements, explicit nulls, anchors, scalar types - and the bodies   *)
-(* of matchers, inhibit rules and time intervals.                          *)
+(* of matchers and inhibit rules.                                          *)
 (*                                                                         *)
 (* The coordinator (second half): the file on disk, the configuration      *)
 (* the subscribers run with, and what the coordinator reports.             *)
@@ -129,6 +137,114 @@ EffWellFormed(c) ==
      /\ Eff(c)[i].gi > 0 /\ Eff(c)[i].ri > 0
 
 -----------------------------------------------------------------------------
+(* Time interval bodies (timeinterval/timeinterval.go).  Two layers:        *)
+(* TOKENS are what the text says, VALUES what the loader stores.            *)
+(*   time of day  token <<h, m>> ("HH:MM")        value minutes 0..1440     *)
+(*   times        token [s, e] of time tokens      value [s, e] in minutes  *)
+(*   weekdays     token [b, e, rng]                value [b, e], 0 = sunday *)
+(*   days_of_month token [b, e, rng]               value [b, e], -1 = last  *)
+(*   months       token [b, e, rng, names]         value [b, e], 1 = january*)
+(*   years        token [b, e, rng]                value [b, e]             *)
+(*   location     token = value = the zone name, "" = key absent            *)
+(* rng = the text has the form "b:e" (otherwise a single member, b = e);    *)
+(* names = months are written by name.  Parse = XxxOK + XxxVal is the       *)
+(* loader (UnmarshalYAML of each type, comparisons transcribed), Print is   *)
+(* the marshaller (MarshalYAML / MarshalText of each type).                 *)
+
+\* Location.UnmarshalYAML asks time.LoadLocation; the tz database is abstracted by the
+\* names the model uses ("Local" is the zone of the process)
+Zones == {"UTC", "Local", "Europe/Paris", "Asia/Kolkata", "America/St_Johns"}
+
+\* parseTime: validTimeRE = ^((([01][0-9])|(2[0-3])):[0-5][0-9])$|(^24:00$)
+TimeTokOK(t) == \/ (t[1] \in 0..23 /\ t[2] \in 0..59)
+                \/ (t[1] = 24 /\ t[2] = 0)
+MinOf(t)     == t[1] * 60 + t[2]
+\* TimeRange.UnmarshalYAML: `start >= end` is refused
+TimesOK(k)   == TimeTokOK(k.s) /\ TimeTokOK(k.e) /\ MinOf(k.s) < MinOf(k.e)
+TimesVal(k)  == [s |-> MinOf(k.s), e |-> MinOf(k.e)]
+\* TimeRange.MarshalYAML: hours = minutes / 60 (1440 -> "24:00"), minutes = minutes % 60
+TimeTokOf(n) == <<n \div 60, n % 60>>
+TimesPrint(v) == [s |-> TimeTokOf(v.s), e |-> TimeTokOf(v.e)]
+
+RangeVal(k)  == [b |-> k.b, e |-> k.e]
+\* InclusiveRange.MarshalText / WeekdayRange.MarshalText: a single member iff Begin = End
+RangePrint(v) == [b |-> v.b, e |-> v.e, rng |-> v.b # v.e]
+\* WeekdayRange.UnmarshalYAML
+WeekdayOK(k) == k.b <= k.e /\ k.b \in 0..6 /\ k.e \in 0..6
+\* DayOfMonthRange.UnmarshalYAML (28 = the shortest month)
+DomOK(k)     == /\ k.b # 0 /\ k.b >= 0 - 31 /\ k.b <= 31
+                /\ k.e # 0 /\ k.e >= 0 - 31 /\ k.e <= 31
+                /\ ~(k.b < 0 /\ k.e > 0)
+                /\ (IF k.b < 0 THEN 28 + k.b ELSE k.b) <= (IF k.e < 0 THEN 28 + k.e ELSE k.e)
+\* MonthRange.UnmarshalYAML: a name must be known; a NUMBER is not range-checked
+\* (implementation layer: `months: ['13']` loads, matches no instant, and prints as '13')
+MonthOK(k)   == k.b <= k.e /\ (k.names => (k.b \in 1..12 /\ k.e \in 1..12))
+\* months are printed as numbers (MonthRange has no marshaller of its own)
+MonthPrint(v) == [b |-> v.b, e |-> v.e, rng |-> v.b # v.e, names |-> FALSE]
+\* YearRange.UnmarshalYAML
+YearOK(k)    == k.b <= k.e
+LocOK(l)     == l = "" \/ l \in Zones
+
+EmptyElem == [times |-> << >>, weekdays |-> << >>, dom |-> << >>, months |-> << >>,
+              years |-> << >>, loc |-> ""]
+
+ElemOK(x) == /\ \A i \in DOMAIN x.times    : TimesOK(x.times[i])
+             /\ \A i \in DOMAIN x.weekdays : WeekdayOK(x.weekdays[i])
+             /\ \A i \in DOMAIN x.dom      : DomOK(x.dom[i])
+             /\ \A i \in DOMAIN x.months   : MonthOK(x.months[i])
+             /\ \A i \in DOMAIN x.years    : YearOK(x.years[i])
+             /\ LocOK(x.loc)
+ElemVal(x) == [times    |-> [i \in DOMAIN x.times    |-> TimesVal(x.times[i])],
+               weekdays |-> [i \in DOMAIN x.weekdays |-> RangeVal(x.weekdays[i])],
+               dom      |-> [i \in DOMAIN x.dom      |-> RangeVal(x.dom[i])],
+               months   |-> [i \in DOMAIN x.months   |-> RangeVal(x.months[i])],
+               years    |-> [i \in DOMAIN x.years    |-> RangeVal(x.years[i])],
+               loc      |-> x.loc]
+ElemPrint(v) == [times    |-> [i \in DOMAIN v.times    |-> TimesPrint(v.times[i])],
+                 weekdays |-> [i \in DOMAIN v.weekdays |-> RangePrint(v.weekdays[i])],
+                 dom      |-> [i \in DOMAIN v.dom      |-> RangePrint(v.dom[i])],
+                 months   |-> [i \in DOMAIN v.months   |-> MonthPrint(v.months[i])],
+                 years    |-> [i \in DOMAIN v.years    |-> RangePrint(v.years[i])],
+                 loc      |-> v.loc]
+
+BodiesOK(c)   == \A i \in DOMAIN c.ibody : \A j \in DOMAIN c.ibody[i].elems : ElemOK(c.ibody[i].elems[j])
+BodyVals(c)   == [i \in DOMAIN c.ibody |->
+                    [name  |-> c.ibody[i].name,
+                     elems |-> [j \in DOMAIN c.ibody[i].elems |-> ElemVal(c.ibody[i].elems[j])]]]
+\* the bodies as the textual form of the LOADED configuration shows them
+PrintedBodies(c) == [i \in DOMAIN c.ibody |->
+                       [name  |-> c.ibody[i].name,
+                        elems |-> [j \in DOMAIN c.ibody[i].elems |-> ElemPrint(ElemVal(c.ibody[i].elems[j]))]]]
+
+-----------------------------------------------------------------------------
+(* Secrets.  A document sets secret-bearing fields: [site, type, shape].    *)
+(* site = the field (one of the constant SecretSites of the model, see      *)
+(* spec/mc/Sites_Config.tla), type = the type that keeps it; the shapes are *)
+(* the values that take different paths through loader and marshaller:      *)
+(*   "plain"      a value without template syntax                           *)
+(*   "templated"  a value with `{{ ... }}` inside (SecretTemplateURL skips  *)
+(*                URL validation for these; pagerduty, webhook, ... expand  *)
+(*                them per notification)                                    *)
+(*   "file"       the field is absent, the sibling `<name>_file` names a    *)
+(*                file (the path is not a secret)                           *)
+(*   "empty"      the field is given as the empty string                    *)
+(* Implementation layer: MarshalYAML of every secret type (commoncfg.Secret,*)
+(* SecretURL, SecretTemplateURL, values or pointers) prints the mask for    *)
+(* ANY non-empty value - it does not look at the value - and nothing for    *)
+(* the empty value.                                                         *)
+
+Shapes == {"plain", "templated", "file", "empty"}
+Mask   == "<secret>"
+Omitted == "omitted"
+
+HasValue(a)      == a.shape \in {"plain", "templated"}
+SecretPrinted(a) == IF HasValue(a) THEN Mask ELSE Omitted
+\* the configuration has no secrets: the scope of the round-trip clause
+SecretFree(c)    == \A i \in DOMAIN c.sec : ~HasValue(c.sec[i])
+\* the statement: the textual form contains no secret value
+NoSecretPrinted(c) == \A i \in DOMAIN c.sec : HasValue(c.sec[i]) => SecretPrinted(c.sec[i]) = Mask
+
+-----------------------------------------------------------------------------
 (* The checks of the code, where the code makes them.                      *)
 
 \* Route.UnmarshalYAML (every node, root included)
@@ -156,6 +272,7 @@ LoadOK(c) == ~Root(c).cont
 
 Accepts(c) == /\ \A i \in DOMAIN c.routes : RouteOK(c.routes[i])
               /\ NamesOK(c)
+              /\ BodiesOK(c)          \* UnmarshalYAML of the time interval types
               /\ TopOK(c)
               /\ LoadOK(c)
 
@@ -167,11 +284,23 @@ Accepts(c) == /\ \A i \in DOMAIN c.routes : RouteOK(c.routes[i])
 Printed(c) == [c EXCEPT !.routes =
                  [i \in DOMAIN c.routes |->
                     IF c.routes[i].gbset /\ c.routes[i].gb = << >>
-                      THEN [c.routes[i] EXCEPT !.gbset = FALSE] ELSE c.routes[i]]]
+                      THEN [c.routes[i] EXCEPT !.gbset = FALSE] ELSE c.routes[i]],
+               !.ibody = PrintedBodies(c)]
 
-\* the statement: the printed form loads back to an equivalent routing tree
+\* Known gap C17-RT-EMPTY-SECRET-POINTER (open finding), implementation layer: a secret kept
+\* behind a pointer (*Secret: the rocketchat token and token_id) that is given as the empty
+\* string is a non-nil pointer to "": the loader takes the field as configured, the marshaller
+\* prints null for it, and the printed form reads back as not configured (refused where the
+\* field or its `_file` sibling is required).
+EmptySecretPointerGap(c) ==
+  \E i \in DOMAIN c.sec : c.sec[i].type = "*Secret" /\ c.sec[i].shape = "empty"
+
+\* the statement: the printed form loads back to an equivalent routing tree and to
+\* equivalent time intervals (the same values)
 RoundTripOK(c) == /\ Accepts(Printed(c))
                   /\ Eff(Printed(c)) = Eff(c)
+                  /\ BodyVals(Printed(c)) = BodyVals(c)
+                  /\ ~EmptySecretPointerGap(c)
                   /\ [i \in DOMAIN c.routes |-> [c.routes[i] EXCEPT !.gbset = FALSE, !.gb = << >>]]
                        = [i \in DOMAIN c.routes |-> [Printed(c).routes[i] EXCEPT !.gbset = FALSE, !.gb = << >>]]
 
@@ -193,7 +322,8 @@ Node(p) == [p |-> p, recv |-> "", gbset |-> FALSE, gb |-> << >>, gi |-> Absent, 
             mute |-> << >>, active |-> << >>]
 
 Base(r) == [recv |-> <<r>>, mti |-> << >>, ti |-> << >>,
-            routes |-> <<[Node(0) EXCEPT !.recv = r]>>]
+            routes |-> <<[Node(0) EXCEPT !.recv = r]>>,
+            ibody |-> << >>, sec |-> << >>]
 
 SetNode(c, i, n) == [c EXCEPT !.routes[i] = n]
 
@@ -212,6 +342,11 @@ SetM(c, i, k)      == [c EXCEPT !.routes[i].m = k]
 SetCont(c, i)      == [c EXCEPT !.routes[i].cont = TRUE]
 AddMute(c, i, t)   == [c EXCEPT !.routes[i].mute = Append(@, t)]
 AddActive(c, i, t) == [c EXCEPT !.routes[i].active = Append(@, t)]
+\* give the named interval a body of its own (one empty element: matches every instant)
+AddBody(c, t)      == [c EXCEPT !.ibody = Append(@, [name |-> t, elems |-> <<EmptyElem>>])]
+\* the body under construction is shared by every interval that has one
+SetElems(c, E)     == [c EXCEPT !.ibody = [i \in DOMAIN @ |-> [@[i] EXCEPT !.elems = E]]]
+AddSecret(c, a)    == [c EXCEPT !.sec = Append(@, a)]
 
 -----------------------------------------------------------------------------
 (* The coordinator (config/coordinator.go): Reload loads the file; a load  *)
@@ -254,8 +389,12 @@ DefectsRejected == defect # "none" => ~Accepts(file)
 
 \* The printed form of an accepted configuration loads back to an equivalent tree
 \* (outside the known gap; the gap is exact: inside it the round trip does differ).
-RoundTrip      == Accepts(file) => (RoundTripOK(file) \/ EmptyGroupByGap(file))
-RoundTripExact == (Accepts(file) /\ EmptyGroupByGap(file)) => ~RoundTripOK(file)
+\* The clause is about configurations without secrets.
+RoundTrip      == (Accepts(file) /\ SecretFree(file)) =>
+                     (RoundTripOK(file) \/ EmptyGroupByGap(file) \/ EmptySecretPointerGap(file))
+RoundTripExact == (Accepts(file) /\ (EmptyGroupByGap(file) \/ EmptySecretPointerGap(file))) => ~RoundTripOK(file)
+\* The textual form of an accepted configuration shows no secret value.
+NoSecretLeak   == Accepts(file) => NoSecretPrinted(file)
 
 \* A rejected reload leaves the running configuration in force, and the coordinator
 \* goes on reporting it.
